@@ -112,9 +112,19 @@ func describeFilter(e Event, f *gcs.Filter, key [16]byte, p uint8, m uint64, ite
 		_, fl := answer(ff)
 		rebuilt = append(rebuilt, map[string]interface{}{"via": via, "n": int(ff.N()), "p": int(ff.P()), "bytes": ints(rbts), "answers": fl})
 	}
-	f1, e1 := gcs.FromBytes(uint32(n), p, m, b)
+	// the caller's buffer is re-used after the call (a network read buffer): a rebuilt filter owns its data
+	scribble := func(buf []byte) {
+		for i := range buf {
+			buf[i] = 0xEE
+		}
+	}
+	in1 := append([]byte{}, b...)
+	f1, e1 := gcs.FromBytes(uint32(n), p, m, in1)
+	scribble(in1)
 	add("FromBytes", f1, e1)
-	f2, e2 := gcs.FromNBytes(p, m, nb)
+	in2 := append([]byte{}, nb...)
+	f2, e2 := gcs.FromNBytes(p, m, in2)
+	scribble(in2)
 	add("FromNBytes", f2, e2)
 	e["rebuilt"] = rebuilt
 }
